@@ -226,6 +226,7 @@ impl Scenario for SingleDrop {
         out.stats.merge(&base.stats);
         let d_total = base.dgrams_in_window;
         out.stats.add("c04_base_runs", 1);
+        out.evaluations = 1; // the fault-free base run
         if !base.violations.is_empty() {
             out.violations = base.violations;
             out.log_hash = base.log;
